@@ -378,7 +378,9 @@ def _classify_value(desc, exp, obs):
         return "value-differs"
     oa = oa[0]
     for n in range(len(seq) - 1, -1, -1):
-        progs = build(fam, seq[:n], desc.get("placement", "root"))
+        progs = build(fam, seq[:n], "root" if desc.get("placement") == "chain" else desc.get("placement", "root"))
+        if progs is None:
+            continue
         try:
             e2 = G.interpret([ln for p in progs for ln in p])
         except G.Rejected:
